@@ -734,6 +734,7 @@ def run(ctx):
         ctx.violation("translate", "translator rejected the source: %s" % ex, {"construct": str(ex)}, found_input=False)
     proof_ok = False
     broken = []
+    corr_done = False
     if T is not None:
         docs = spec_formulas_from_docs(T["docs"])
         changed = [k for k in PINNED_DOC_FORMULAS if docs.get(k) != PINNED_DOC_FORMULAS[k]]
@@ -744,28 +745,59 @@ def run(ctx):
                           {"now": docs.get(changed[0]), "pinned": PINNED_DOC_FORMULAS[changed[0]]}, found_input=False)
         open(os.path.join(ctx.build, "Gen_TimeSchemes.v"), "w").write(TS.emit_coq(T))
         ctx.cov["translated_definitions"] = sum(1 for a in ALGOS for k in ("ev", "coefs", "up") for t in T["schemes"][a][k] if t is not None) + 2 * len(ALGOS)
-        files = ["C05_spec.v"] + ["C05_%s.v" % a for a in ALGOS] + ["C05_relations.v", "C05_energy.v", "C05_examples.v"]
+        files = ["C05_spec.v"] + ["C05_%s.v" % a for a in ALGOS] + ["C05_relations.v", "C05_energy.v", "C05_examples.v", "C05_stability.v", "C05_stability_examples.v"]
         ctx.copy_props(*["C05/" + f for f in files])
+        ctx.log("translated")
         r0 = ctx.coq(["Gen_TimeSchemes.v", "C05_spec.v"], timeout=300)
         results = {}
         if r0.ok:
-            par = ["C05_%s.v" % a for a in ALGOS] + ["C05_relations.v"]
+            # longest first, so that the three workers finish together
+            par = ["C05_%s.v" % a for a in ("hht_newmark", "hht", "newmark", "midpoint", "parabolic", "euler_implicit", "euler_explicit")] + ["C05_relations.v"]
             with ThreadPoolExecutor(max_workers=3) as ex:
                 for f, r in zip(par, ex.map(lambda f: ctx.coq([f], timeout=600), par)):
                     results[f] = r
+            # the implementation-side runs (one python process) overlap with the remaining two coqc jobs (<= 3 cores)
+            import threading
+            corr_box = {}
+
+            def _corr():
+                try:
+                    correspondence(ctx, T)
+                except Exception:
+                    import traceback
+                    corr_box["tb"] = traceback.format_exc()
+            ctx.log("per-algorithm theorem files done")
+            corr_thread = threading.Thread(target=_corr)
+            corr_thread.start()
+            second = []
             if all(results["C05_%s.v" % a].ok for a in ("midpoint", "newmark", "euler_implicit")):
-                results["C05_energy.v"] = ctx.coq(["C05_energy.v"], timeout=600)
+                second.append("C05_energy.v")
             else:
                 ctx.obligation("coqc:C05_energy.v", False, "not compiled: depends on a theorem file that no longer checks", n=9)
-            if all(r.ok for r in results.values()) and "C05_energy.v" in results:
-                results["C05_examples.v"] = ctx.coq(["C05_examples.v"], timeout=300)
+            if all(results["C05_%s.v" % a].ok for a in ("newmark", "parabolic")):
+                second.append("C05_stability.v")
             else:
-                ctx.obligation("coqc:C05_examples.v", False, "not compiled: depends on a theorem file that no longer checks", n=10)
+                ctx.obligation("coqc:C05_stability.v", False, "not compiled: depends on a theorem file that no longer checks", n=12)
+            with ThreadPoolExecutor(max_workers=2) as ex:
+                for f, r in zip(second, ex.map(lambda f: ctx.coq([f], timeout=600), second)):
+                    results[f] = r
+            if all(r.ok for r in results.values()) and "C05_energy.v" in results and "C05_stability.v" in results:
+                results["C05_examples.v"] = ctx.coq(["C05_examples.v"], timeout=300)
+                if results["C05_examples.v"].ok:
+                    results["C05_stability_examples.v"] = ctx.coq(["C05_stability_examples.v"], timeout=300)
+            else:
+                ctx.obligation("coqc:C05_examples.v", False, "not compiled: depends on a theorem file that no longer checks", n=12)
             broken = [f for f, r in results.items() if not r.ok]
+            ctx.log("all theorem files done")
+            corr_thread.join()
+            ctx.log("correspondence done")
+            corr_done = True
+            if "tb" in corr_box:
+                raise RuntimeError("correspondence failed:\n" + corr_box["tb"])
         else:
             broken = ["Gen_TimeSchemes.v"]
             results["Gen_TimeSchemes.v"] = r0
-        proof_ok = not broken and "C05_examples.v" in results
+        proof_ok = not broken and "C05_stability_examples.v" in results
         ctx.sample({"theorem": "hht_discrete_eom : forall I K C M, linear K -> linear C -> linear M -> forall dt beta gamma alpha u_n v_n a_n bN F, "
                                "hht_admissible .. -> beta <> 0 -> forall x i, hht_A .. x i = hht_rhs .. x i -> hht_lhs .. x i = bN i + F i",
                     "generated": "hht_rhs := " + TS.show(T["schemes"]["hht"]["rhs"])})
@@ -797,9 +829,10 @@ def run(ctx):
                 ctx.violation("proof-broken:" + f, "theorem file %s no longer checks and no parameter assignment separating the two sides was found "
                               "in 200 tries per algorithm (a rewrite the proof script does not follow?)" % f,
                               {"obligation": f, "log": results[f].log[-3000:] if f in results else ""}, found_input=False)
-    correspondence(ctx, T)
+    if not corr_done:
+        correspondence(ctx, T)
     if ctx.tier == "thorough" and T is not None and proof_ok:
-        rc, out, err = common.sh(["coqchk", "-silent", "-o"] + common.COQ_Q + ["-Q", ctx.build, "EFP", "EFP.C05_examples", "EFP.C05_relations"],
+        rc, out, err = common.sh(["coqchk", "-silent", "-o"] + common.COQ_Q + ["-Q", ctx.build, "EFP", "EFP.C05_stability_examples", "EFP.C05_relations"],
                                  cwd=ctx.build, timeout=900)
         txt = out + err
         clean = rc == 0 and all(("%s: <none>" % k) in txt for k in ("relying on type-in-type", "relying on unsafe (co)fixpoints", "positivity is assumed"))
